@@ -31,13 +31,22 @@ type ccase struct {
 	Batch   int    `json:"batch"`   // --batch-size (0 = not given)
 	MaxCPU  int    `json:"maxcpu"`  // --max-cpu (0 = not given)
 	Jitter  int    `json:"jitter"`  // VERIF_JITTER max µs
-	Mode    string `json:"mode"`    // devfull_o | devfull_stdout | pipe
-	K       int    `json:"k"`       // pipe: bytes read before the read end is closed
+	Mode    string `json:"mode"`    // devfull_o | devfull_stdout | pipe | (cmdreal_test.go:) file_o | file_stdout | fifo_o | pipe_devstdout | fulldisk_o
+	K       int    `json:"k"`       // pipe: bytes read before the read end is closed; file_*: file size limit; fulldisk_o: size of the file system
 	PipeCap int    `json:"pipecap"` // pipe: requested capacity (bytes)
 }
 
+// viaO: the output is named with -o (otherwise it is the standard output).
+func (c ccase) viaO() bool {
+	switch c.Mode {
+	case "devfull_o", "file_o", "fifo_o", "pipe_devstdout", "fulldisk_o":
+		return true
+	}
+	return false
+}
+
 func (c ccase) configKey() string {
-	viaO := c.Mode == "devfull_o"
+	viaO := c.viaO()
 	return fmt.Sprint(c.Cmd, c.Format, c.NRec, c.SeqLen, c.Gzip, c.Batch, c.MaxCPU, c.Jitter, viaO)
 }
 
@@ -54,8 +63,8 @@ func (c ccase) validate() error {
 		return fmt.Errorf("nrec and seqlen must be >= 1")
 	}
 	switch c.Mode {
-	case "devfull_stdout", "pipe":
-	case "devfull_o":
+	case "devfull_stdout", "pipe", "file_stdout":
+	case "devfull_o", "file_o", "fifo_o", "pipe_devstdout", "fulldisk_o":
 		if c.Cmd == "obicsv" {
 			return fmt.Errorf("obicsv does not honour -o (domain decision)")
 		}
@@ -260,7 +269,7 @@ func getCmdRef(c ccase, input string) *cmdRef {
 	r := &cmdRef{}
 	args := c.args(input)
 	var outFile string
-	if c.Mode == "devfull_o" {
+	if c.viaO() {
 		outFile = filepath.Join(filepath.Dir(input), "ref.out")
 		args = append([]string{"-o", outFile}, args...)
 	}
